@@ -83,6 +83,31 @@ def probes(vals, hdr, r):
             r.violate('C25:client-could-send-on-stream-1:%s' % name, o.out.hex()[:40])
         elif not o.is_h2error():
             r.violate('C25:client-send-on-stream-1-wrong-exception:%s' % o.exc_name, '')
+    # before the client's preface and SETTINGS frame have arrived the server already knows the client's settings
+    # from the header: it can answer stream 1 with frames as large as the client allows
+    q = UpgRaw(vals)
+    q.call('c', 'initiate_upgrade_connection', (), {})
+    q.call('s', 'initiate_upgrade_connection', (hdr,), {})
+    n = min(vals.get(5, 16384), 60000, vals.get(4, 65535))
+    o = q.call('s', 'send_headers', (1, [(':status', '200')]), {})
+    o2 = q.call('s', 'send_data', (1, b'e' * n), {}) if o.ok else o
+    r.evals += 1
+    if not o.ok or not o2.ok:
+        r.violate('C25:early-answer-within-client-settings-refused:%s' % (o2.exc_name or o.exc_name),
+                  '%d bytes, client MAX_FRAME_SIZE %r' % (n, vals.get(5)))
+        return
+    if n > 16384:
+        r.labels.add('early-answer-with-large-frame')
+    # a client's own MAX_HEADER_LIST_SIZE limits what it is willing to receive, not what it may send
+    if vals.get(6, 65536) <= 8192:
+        q = clone()
+        o = q.call('c', 'send_headers', (3, REQ + [('x-fill', 'f' * 9000)]), {'end_stream': True})
+        o2, _ = q.deliver('c', len(q.pipe['c']))
+        r.evals += 1
+        if not o.ok or not o2.ok or not any(e[0] == 'RequestReceived' for e in o2.events):
+            r.violate('C25:request-larger-than-the-clients-own-header-list-limit-refused', o2.brief())
+            return
+        r.labels.add('client-header-list-limit-probe')
     # positive probe: each side sends as much body as it believes the peer's windows allow (the server as the
     # response on stream 1, the client on its first new stream); the receiver never acknowledges anything and
     # must accept all of it - the flow-control windows of the upgraded connection agree on both sides
